@@ -50,7 +50,7 @@ func siteKeys(c *core.Ctx, sites []e2.Site) []string {
 
 // R01.1
 var ruleBounds = &core.Rule{ID: "R01.1", Min: 600,
-	Doc: "bounds: every index, slice, make, integer division and fixed-width binary read in module code is proved in range against len (not cap) by the linear-fact engine (dominating conditions, assume-after-check, inferred loop invariants and callee summaries, Fourier-Motzkin entailment); the path-stack pops are proved by the stack typestate",
+	Doc: "bounds: every index, slice, make, integer division and fixed-width binary read in module code is proved in range against len (not cap) by the linear-fact engine (dominating conditions, assume-after-check, inferred loop invariants, callee postconditions emitted at the call, call-site preconditions for functions with known callers, tuple summaries, return-case splits, builtin min/max, contracts of the standard searching and cutting functions, Fourier-Motzkin entailment); the path-stack pops are proved by the stack typestate",
 	Run: func(c *core.Ctx, s *core.Sink) {
 		r := getE2(c)
 		keys := siteKeys(c, r.Sites)
@@ -244,7 +244,7 @@ var ruleDynCalls = &core.Rule{ID: "R01.3", Min: 4,
 
 // R01.4 termination
 var ruleTermination = &core.Rule{ID: "R01.4", Min: 55,
-	Doc: "termination: every loop is a range over a slice/array/string, or has a ranking function found by the linear-fact engine (bounded below while the loop runs, strictly decreasing on every back edge), or is one of the recognised forms: external iterator left on its terminal result (csv Read, tokenizer Next, TagAttr), line loop over bytes.Cut remainders, parent-chain walk over the acyclic tree; no goroutines or channels; recursion is bounded by R16",
+	Doc: "termination: every loop is a range over a slice/array/string, or has a ranking function found by the linear-fact engine (bounded below while the loop runs, strictly decreasing on every back edge), or is one of the recognised forms: external iterator left on its terminal result (csv Read, tokenizer Next, TagAttr), line loop over bytes.Cut remainders, parent-chain walk over the acyclic tree, tree-descent loop of the iterative walk forms; no goroutines or channels; recursion is bounded by R16",
 	Run: func(c *core.Ctx, s *core.Sink) {
 		r := getE2(c)
 		wm := getWalk(c)
